@@ -1,7 +1,121 @@
 package main
 
-// needsInstrumentation reports whether the harness is built in fine-grained mode (simast rewrites).
-func needsInstrumentation(harness string) bool { return false }
+import (
+	"fmt"
+	"os"
+	"path/filepath"
+	"regexp"
+	"strings"
+)
 
-// instrument rewrites the listed packages of /repo into dir and returns overlay entries.
-func instrument(dir, harness string) (map[string]string, error) { return nil, nil }
+// Fine-grained mode ("simast-lite", DESIGN §2.4): a textual, line-based rewrite of a fixed list of
+// files of /repo's CURRENT working tree into scratch copies that the -overlay maps over the
+// originals. /repo is never written. The rewrite swaps sync/atomic types for their yielding twins
+// in simrt and puts a yield in front of select statements and channel send/receive statements.
+// Only harnesses listed in fineGrained get it.
+
+var fineGrained = map[string][]string{
+	"hkernel": {
+		"internal/containers/mpmc/queue.go",
+		"internal/containers/mpsc/accumulator.go",
+		"internal/listobjects/pipeline/internal/track/reporting.go",
+		"internal/listobjects/pipeline/internal/worker/core.go",
+		"internal/listobjects/pipeline/internal/worker/cycle.go",
+		"internal/listobjects/pipeline/internal/worker/basic.go",
+		"internal/listobjects/pipeline/internal/worker/medium.go",
+	},
+}
+
+func needsInstrumentation(harness string) bool { return len(fineGrained[harness]) > 0 }
+
+var swaps = []struct{ from, to string }{
+	{"atomic.Int64", "simrt.AtomicInt64"},
+	{"atomic.Uint64", "simrt.AtomicUint64"},
+	{"atomic.Int32", "simrt.AtomicInt32"},
+	{"atomic.Uint32", "simrt.AtomicUint32"},
+	{"atomic.Bool", "simrt.AtomicBool"},
+	{"atomic.Pointer[", "simrt.AtomicPointer["},
+	{"sync.RWMutex", "simrt.RWMutex"},
+	{"sync.Mutex", "simrt.Mutex"},
+}
+
+var (
+	reSelect = regexp.MustCompile(`^(\s*)select \{\s*$`)
+	reSend   = regexp.MustCompile(`^(\s*)[A-Za-z_][\w\.\[\]\(\)]* <- .+$`)
+	reRecv   = regexp.MustCompile(`^(\s*)(?:[\w, ]+ :?= )?<-[A-Za-z_][\w\.\[\]\(\)]*\s*$`)
+	reImport = regexp.MustCompile(`(?m)^import \(\n`)
+)
+
+const simrtImport = "github.com/openfga/openfga/internal/verifsim/simrt"
+
+// instrument rewrites the listed files into dir and returns overlay entries original -> copy.
+func instrument(dir, harness string) (map[string]string, error) {
+	if err := os.MkdirAll(dir, 0o755); err != nil {
+		return nil, err
+	}
+	out := map[string]string{}
+	total := 0
+	for _, rel := range fineGrained[harness] {
+		src := filepath.Join(repoDir, rel)
+		data, err := os.ReadFile(src)
+		if err != nil {
+			return nil, err
+		}
+		s := string(data)
+		nSwap := 0
+		for _, sw := range swaps {
+			nSwap += strings.Count(s, sw.from)
+			s = strings.ReplaceAll(s, sw.from, sw.to)
+		}
+		lines := strings.Split(s, "\n")
+		var res []string
+		nYield := 0
+		inCase := false
+		for _, l := range lines {
+			trim := strings.TrimSpace(l)
+			// never touch select cases ("case x <- v:", "case v := <-c:")
+			inCase = strings.HasPrefix(trim, "case ") || strings.HasPrefix(trim, "default:")
+			if m := reSelect.FindStringSubmatch(l); m != nil {
+				res = append(res, m[1]+`simrt.Yield("select")`)
+				nYield++
+			} else if !inCase && !strings.HasPrefix(trim, "//") && !strings.HasPrefix(trim, "return ") {
+				if m := reSend.FindStringSubmatch(l); m != nil {
+					res = append(res, m[1]+`simrt.Yield("send")`)
+					nYield++
+				} else if m := reRecv.FindStringSubmatch(l); m != nil {
+					res = append(res, m[1]+`simrt.Yield("recv")`)
+					nYield++
+				}
+			}
+			res = append(res, l)
+		}
+		s = strings.Join(res, "\n")
+		total += nSwap + nYield
+		if nSwap+nYield == 0 {
+			continue // nothing to instrument in this file: the original is used
+		}
+		if !strings.Contains(s, simrtImport) {
+			if !reImport.MatchString(s) {
+				return nil, fmt.Errorf("%s: no import block", rel)
+			}
+			s = reImport.ReplaceAllString(s, "import (\n\t\""+simrtImport+"\"\n")
+		}
+		// drop now-unused imports (the compiler rejects them)
+		for _, pkg := range []string{"sync/atomic", "sync"} {
+			short := pkg[strings.LastIndex(pkg, "/")+1:]
+			body := s[strings.Index(s, ")\n"):]
+			if !strings.Contains(body, short+".") {
+				s = strings.Replace(s, "\t\""+pkg+"\"\n", "", 1)
+			}
+		}
+		dst := filepath.Join(dir, strings.ReplaceAll(rel, "/", "_"))
+		if err := os.WriteFile(dst, []byte(s), 0o644); err != nil {
+			return nil, err
+		}
+		out[src] = dst
+	}
+	if total < 20 {
+		return nil, fmt.Errorf("only %d instrumentation points found in %d files (sources changed shape?)", total, len(fineGrained[harness]))
+	}
+	return out, nil
+}
